@@ -21,6 +21,7 @@ import os
 import random
 import re
 import shutil
+import signal
 import stat
 import subprocess
 import sys
@@ -67,6 +68,12 @@ def check_sandbox(S):
     with open("/usr/bin/systemctl", "rb") as f, open(os.path.join(HERE, "systemctl"), "rb") as g:
         if f.read() != g.read():
             die("/usr/bin/systemctl is not the stand-in")
+
+
+class ToolTimeout(Exception):
+    def __init__(self, argv, timeout, diag):
+        Exception.__init__(self, "setup tool timed out after %ss: %s" % (timeout, argv))
+        self.argv, self.timeout, self.diag = argv, timeout, diag
 
 
 class World:
@@ -299,7 +306,7 @@ class World:
         return calls
 
     # ---- execution ------------------------------------------------------------------------
-    def run_cmd(self, argv, trace):
+    def run_cmd(self, argv, trace, timeout=60):
         cmd = [self.tool] + argv
         tr = None
         if trace:
@@ -307,11 +314,23 @@ class World:
             cmd = ["strace", "-f", "-y", "-qq", "-s", "300", "-o", tr, "-e",
                    "trace=execve,open,openat,creat,rename,renameat,renameat2,unlink,unlinkat,mkdir,mkdirat,rmdir,"
                    "symlink,symlinkat,link,linkat,chmod,fchmodat,truncate,chown,fchownat,lchown"] + cmd
+        # own session / process group (so that everything the tool spawned can be killed), no stdin to wait on
+        proc = subprocess.Popen(cmd, env=self.env, cwd=self.setup, stdin=subprocess.DEVNULL, stdout=subprocess.PIPE,
+                                stderr=subprocess.STDOUT, start_new_session=True)
         try:
-            p = subprocess.run(cmd, env=self.env, cwd=self.setup, stdout=subprocess.PIPE, stderr=subprocess.STDOUT,
-                               timeout=120)
+            stdout, _ = proc.communicate(timeout=timeout)
         except subprocess.TimeoutExpired:
-            die("setup tool timed out: %s" % argv, 4)
+            diag = self.group_diag(proc.pid)
+            try:
+                os.killpg(proc.pid, signal.SIGKILL)
+            except ProcessLookupError:
+                pass
+            try:
+                proc.communicate(timeout=30)
+            except subprocess.TimeoutExpired:
+                proc.kill()
+            raise ToolTimeout(argv, timeout, diag)
+        p = subprocess.CompletedProcess(cmd, proc.returncode, stdout)
         out = p.stdout.decode("utf-8", "replace")
         r = {"exit": p.returncode, "out_tail": out[-400:]}
         pl = [ln for ln in out.splitlines() if "panicked at" in ln]
@@ -321,6 +340,37 @@ class World:
         if trace:
             r["strace"] = self.parse_strace(tr)
         return r
+
+    @staticmethod
+    def group_diag(pgid):
+        """what the processes of a hung command were doing (for the evidence): comm, state, wchan, cmdline"""
+        rows = []
+        for d in os.listdir("/proc"):
+            if not d.isdigit():
+                continue
+            try:
+                with open("/proc/%s/stat" % d) as f:
+                    st = f.read()
+                rest = st[st.rindex(")") + 2:].split()
+                if int(rest[2]) != pgid:            # field 5 of stat = process group
+                    continue
+                comm = st[st.index("(") + 1:st.rindex(")")]
+                try:
+                    with open("/proc/%s/wchan" % d) as f:
+                        wchan = f.read().strip()
+                except OSError:
+                    wchan = "?"
+                with open("/proc/%s/cmdline" % d, "rb") as f:
+                    cl = f.read().replace(b"\0", b" ").decode("utf-8", "replace")[:120]
+                rows.append({"pid": int(d), "comm": comm, "state": rest[0], "wchan": wchan, "cmdline": cl})
+            except (OSError, ValueError):
+                continue
+        try:
+            with open("/proc/loadavg") as f:
+                rows.append({"loadavg": f.read().strip()})
+        except OSError:
+            pass
+        return rows[:20]
 
     def parse_strace(self, path):
         """order of stop/start vs mutations of the system locations; mutations outside the allowed places"""
@@ -412,21 +462,43 @@ def main():
     w = World(S, job["setup_bin"])
     argv_of = dict(ARGV)
     argv_of.update(job.get("argv", {}))
+    def run_behaviour(b, timeout):
+        rnd = random.Random("%s/%s" % (job["seed"], b["id"]))
+        w.reset(b["init"], rnd)
+        rec = {"id": b["id"], "init": w.observe(), "steps": []}
+        for c in b["cmds"]:
+            argv = c["argv"] if isinstance(c, dict) else argv_of[c]
+            name = c["c"] if isinstance(c, dict) else c
+            r = w.run_cmd(argv, bool(b.get("trace")), timeout)
+            o = w.observe()
+            o["calls"] = w.read_calls()
+            o.update(r)
+            o["c"] = name
+            o["argv"] = argv
+            rec["steps"].append(o)
+        return rec
+
+    # A command that exceeds its time limit aborts only its behaviour (process group killed, nothing of it is
+    # compared or judged); the state is rebuilt from scratch for the next one anyway.  Aborted behaviours are run
+    # once more at the end; the record says how often a behaviour timed out and what the processes were doing.
+    t1, t2 = int(job.get("timeout", 60)), int(job.get("retry_timeout", 120))
+    again = []
     with open(out_path, "w") as out:
         for b in job["behaviours"]:
-            rnd = random.Random("%s/%s" % (job["seed"], b["id"]))
-            w.reset(b["init"], rnd)
-            rec = {"id": b["id"], "init": w.observe(), "steps": []}
-            for c in b["cmds"]:
-                argv = c["argv"] if isinstance(c, dict) else argv_of[c]
-                name = c["c"] if isinstance(c, dict) else c
-                r = w.run_cmd(argv, bool(b.get("trace")))
-                o = w.observe()
-                o["calls"] = w.read_calls()
-                o.update(r)
-                o["c"] = name
-                o["argv"] = argv
-                rec["steps"].append(o)
+            try:
+                rec = run_behaviour(b, t1)
+            except ToolTimeout as ex:
+                again.append((b, {"argv": ex.argv, "timeout": ex.timeout, "processes": ex.diag}))
+                continue
+            out.write(json.dumps(rec, separators=(",", ":")) + "\n")
+            out.flush()
+        for b, first in again:
+            try:
+                rec = run_behaviour(b, t2)
+                rec["timeouts"] = [first]
+            except ToolTimeout as ex:
+                rec = {"id": b["id"], "aborted": "tool-timeout", "steps": [],
+                       "timeouts": [first, {"argv": ex.argv, "timeout": ex.timeout, "processes": ex.diag}]}
             out.write(json.dumps(rec, separators=(",", ":")) + "\n")
             out.flush()
 
